@@ -200,3 +200,68 @@ func VH_C14_FAULTY(i, n int) {
 	vRenderErr(q, err)
 	vCover("rejected")
 }
+
+// Fault placement grid: every faulty fragment substituted at every syntactic position. A
+// statement that contains a fault stays statically wrong whatever surrounds it, so the whole
+// cross product must be rejected; each context with a well-typed filler must be accepted
+// (otherwise the rejection would say nothing about the fault).
+type vC14Ctx struct {
+	text string // '@' marks the position
+	kind byte   // kind of operand the position takes: t, n, b
+}
+
+var vC14Contexts = []vC14Ctx{
+	{"select * where @", 'b'}, {"select * where !@", 'b'}, {"select * where !(@)", 'b'}, {"select * where !(!(@))", 'b'},
+	{"select * where @ & key = 'a'", 'b'}, {"select * where key = 'a' | @", 'b'}, {"select * where is_int(value) and @", 'b'},
+	{"select * where @ or key ^= 'a'", 'b'}, {"select key, @ where key ^= 'a'", 'b'}, {"delete where @", 'b'},
+	{"select * where (@) = true", 'b'},
+	{"select * where @ = 'a'", 't'}, {"select * where 'a' = @", 't'}, {"select * where upper(@) = 'A'", 't'},
+	{"select * where key in ('k', @)", 't'}, {"select * where key in (@, 'k')", 't'}, {"select * where key between 'a' and @", 't'},
+	{"select * where key between @ and 'z'", 't'}, {"select @ where key = 'a'", 't'}, {"select key, @ as f where key = 'a'", 't'},
+	{"select * where strlen(@) = 1", 't'}, {"select * where !(@ = 'a')", 't'}, {"select * where join(',', 'a', @) = 'a'", 't'},
+	{"select * where substr(@, 0, 1) = 'a'", 't'}, {"select * where key = 'a' & value ^= @", 't'}, {"delete where key ^= 'a' & value = @", 't'},
+	{"put ('a', @)", 't'}, {"put (@, 'a')", 't'}, {"put ('a', 'b'), ('c', 'd' + @)", 't'}, {"remove @", 't'}, {"remove 'a', @", 't'},
+	{"select * where @ > 1", 'n'}, {"select * where 1 < @", 'n'}, {"select * where int(value) + @ = 2", 'n'}, {"select * where @ * 2 = 2", 'n'},
+	{"select * where int(value) in (1, @)", 'n'}, {"select * where int(value) between 0 and @", 'n'}, {"select * where substr(key, @, 1) = 'a'", 'n'},
+	{"select @ where key = 'a'", 'n'}, {"select * where !(@ = 1)", 'n'}, {"select key, sum(@) where key ^= 'a' group by key", 'n'},
+}
+
+var vC14Fragments = []string{
+	"(key + 1)", "upper(key, key)", "upper()", "foo(key)", "lower(key - 'a')", "(int(value) * 'a')", "('a' / 2)", "strlen()", "int(value, 1)",
+	"!key", "!!key", "!(!key)", "!!'a'", "!!1", "!(!(int(value)))", "!!(key + 'a')", "!upper(key)",
+	"(key = 1)", "(int(value) > 'a')", "(key in (1))", "(key between 'a' and 1)", "!(key = 1)", "is_int(key = 1)", "upper(1 + 'a')",
+	"(key ^= 1)", "(1 and key = 'a')", "(key = 'a' | 'b')",
+}
+
+func VN_C14_CTX(tier int) int  { return len(vC14Contexts) }
+func VN_C14_FRAG(tier int) int { return len(vC14Fragments) }
+
+func vFill(ctx, frag string) string {
+	out := ""
+	for i := 0; i < len(ctx); i++ {
+		if ctx[i] == '@' {
+			out += frag
+		} else {
+			out += string(ctx[i])
+		}
+	}
+	return out
+}
+
+// VH_C14_GRID(c, f, n): fragment f at position c.
+func VH_C14_GRID(c, f, n int) {
+	ctx := vC14Contexts[c]
+	good := map[byte]string{'t': "'a'", 'n': "1", 'b': "(key = 'a')"}[ctx.kind]
+	if ctx.kind == 'n' && vContains(ctx.text, "sum(") {
+		good = "int(value)"
+	}
+	_, err := NewOptimizer(vFill(ctx.text, good)).BuildPlan(vSymStore(n, 1, 1, 1, 1, "ab", "12"))
+	vAssert(err == nil, "harness/C14-context-rejected-with-a-well-typed-operand")
+	q := vFill(ctx.text, vC14Fragments[f])
+	st := vSymStore(n, 1, 1, 1, 1, "ab", "12")
+	_, err = NewOptimizer(q).BuildPlan(st)
+	vAssert(err != nil, "C14/statically-wrong-statement-accepted")
+	vAssert(len(st.log) == 0, "C14/storage-accessed-before-rejection")
+	vRenderErr(q, err)
+	vCover("rejected")
+}
